@@ -213,7 +213,23 @@ class SumAggregator:
                 return False
         return True
 
-    def _replace_elements(self, elements: list[AST], prg: list[AST]) -> list[AST]:
+    @staticmethod
+    def _group_is_visible(trigger: tuple[AST, int, AnnotatedPredicate], terms: list[AST], outer_vars: set[AST]) -> bool:
+        """the chain term that is added to the tuple contains the group arguments of the atom.
+        This only keeps tuples (un)equal if the group variables are already part of the tuple or fixed from outside"""
+        trigger_lit, _, trigger_anon_pred = trigger
+        visible: set[AST] = set(outer_vars)
+        for term in terms:
+            visible.update(collect_ast(term, "Variable"))
+        for index, arg in enumerate(trigger_lit.atom.symbol.arguments):
+            if index in trigger_anon_pred.annotated_positions:
+                continue
+            for var in collect_ast(arg, "Variable"):
+                if var.name != "_" and var not in visible:
+                    return False
+        return True
+
+    def _replace_elements(self, elements: list[AST], prg: list[AST], outer_vars: Optional[set[AST]] = None) -> list[AST]:
         newelements = []
         for elem in elements:
             assert elem.ast_type == ASTType.BodyAggregateElement
@@ -224,7 +240,7 @@ class SumAggregator:
 
                 trigger = self._get_trigger(elem.terms[0], elem.condition)
 
-                if trigger is None:
+                if trigger is None or not self._group_is_visible(trigger, elem.terms[1:], outer_vars or set()):
                     newelements.append(elem)
                     continue
                 trigger_lit, trigger_index, trigger_anon_pred = trigger
@@ -326,7 +342,7 @@ class SumAggregator:
             return [minimize]
         trigger = self._get_trigger(minimize_var, minimize.body)
 
-        if trigger is None:
+        if trigger is None or not self._group_is_visible(trigger, [minimize.priority] + list(minimize.terms), set()):
             return [minimize]
         trigger_lit, trigger_index, trigger_anon_pred = trigger
         log.info(f"Replace {trigger_anon_pred.pred.name}/{trigger_anon_pred.pred.arity} inside an objective function.")
@@ -401,7 +417,8 @@ class SumAggregator:
                         atom = blit.atom
                         # not #sum+, the telescoping differences only add up if negative weights count as well
                         if atom.ast_type == ASTType.BodyAggregate and atom.function == AggregateFunction.Sum:
-                            newatom = atom.update(elements=self._replace_elements(atom.elements, ret))
+                            outer_vars = collect_binding_information_body([x for x in stm.body if x != blit])[0]
+                            newatom = atom.update(elements=self._replace_elements(atom.elements, ret, outer_vars))
                             newbody.append(blit.update(atom=newatom))
                         else:
                             newbody.append(blit)
